@@ -102,6 +102,22 @@ def r07_3(ctx: Ctx) -> None:
                 readers.append(f"{rel}::{qual}")
     allowed = {f"{CP}::remove_redundant_protoclusters", f"{CP}::strip_inferior_domains",
                "antismash/common/hmm_rule_parser/rule_parser.py::Parser._parse_superiors"}
+    # a private helper the reference tree did not have is an extraction: it reads on behalf of its callers
+    from ..report import _reference_helpers
+    attributed = set(readers)
+    for reader in sorted(readers):
+        rel, qual = reader.split("::")
+        last = qual.split(".")[-1]
+        if reader in allowed or not last.startswith("_") or last.startswith("__") or qual in _reference_helpers().get(rel, []):
+            continue
+        prefix = qual.rsplit(".", 1)[0] + "." if "." in qual else ""
+        callers = [f"{rel}::{q}" for q, f in _walk_functions(ctx.repo.modules[rel].tree, "")
+                   if q != qual and any(last_attr(c) == last or call_name(c) == last for c in calls(f))
+                   and (not prefix or q.startswith(prefix))]
+        if callers and all(c in allowed for c in callers):
+            attributed.discard(reader)
+            attributed |= set(callers)
+    readers = sorted(attributed)
     extra = sorted(set(readers) - allowed)
     ctx.ob("R07.3", CP, 0, "<package>", "readers of rule.superiors", not extra and len(set(readers) & allowed) == 3,
            "another rule's superiors are consulted only by the parser's closure and the two sanctioned cross-rule steps",
